@@ -74,8 +74,9 @@ class AbstractTessellate(object):
 
     def reset(self):
         """ Clears stored vertices and faces. """
-        self._vertices[:] = []
-        self._faces[:] = []
+        # New lists: the vertices and faces which were returned before stay as they are
+        self._vertices = []
+        self._faces = []
 
     def is_tessellated(self):
         """ Checks if vertices and faces are generated.
